@@ -74,7 +74,7 @@ def plan(tier, seed):
         shards.append({"part": "scan", "lo": lo, "hi": lo + 160, "bound": "reports on scanned two-statement files"})
     return {
         "shards": shards,
-        "require_nonzero": ["scan-message", "lines:imports", "lines:missing", "lines:missing-any", "query:get", "query:other-from", "query:other-on", "layer-report", "pattern-report:FAIL"],
+        "require_nonzero": ["scan-message", "lines:imports", "lines:missing", "lines:missing-any", "query:get", "query:other-from", "query:other-on", "layer-report", "pattern-report:FAIL", "nested-object-report"],
     }
 
 
@@ -321,6 +321,45 @@ def regex_reports(ns, I, seed, res, only=None):
     return viol
 
 
+def nested_reports(ns, I, ev, seed, res, only=None):
+    """An object package nested inside the subject package ('P should not import P.q', both named): the reported
+    imports are exactly the imports from P or below into P.q or below - those between two modules of P.q included
+    (for 'should not' no reading of the documentation says otherwise; the complete five-module space agrees)."""
+    from ..spaces import desc
+
+    viol = []
+    for P in ns[1:]:
+        for B in ns[1:]:
+            if not B.startswith(P + "."):
+                continue
+            for imp in (True, False):
+                key = [P, B, imp]
+                if only is not None and only != key:
+                    continue
+                spec = dict(verb="should_not", imp=imp, exc=False, sk="named", subj=(P,), ok="named", obj=(B,))
+                got = run_rule(mkrule(spec, seed), ev)
+                E = set(I) if imp else {(v, u) for u, v in I}
+                exp = {(u, v) for u, v in E if u in desc(P, ns) and v in desc(B, ns)}
+                if res is not None:
+                    res.transitions += 1
+                    res.evaluations += 1
+                    res.traces += 1
+                    res.stats["nested-object-report"] += 1
+                if got[0] == FAIL:
+                    try:
+                        rep = parse_rule_message(got[1], imp)[0]
+                    except Unparsable as e:
+                        viol.append(("unparsable-line", key, "a line of the documented grammar", str(e)))
+                        continue
+                elif got[0] == ERR:
+                    continue  # verdicts and unexpected exceptions are C01's business
+                else:
+                    rep = set()
+                if rep != exp:
+                    viol.append(("nested-object-report", key, sorted(map(list, exp)), sorted(map(list, rep))))
+    return viol
+
+
 def run_shard(shard, tier, seed):
     res = Result(shard["bound"])
     if shard.get("part") == "regex":
@@ -369,6 +408,9 @@ def run_shard(shard, tier, seed):
                 got = run_rule(mkrule(spec, seed), ev)
                 if got[0] == FAIL:
                     res.sample({"modules": ns, "imports": I, "rule": spec_to_json(spec), "message": got[1]})
+        if not shard.get("phantom") and not shard.get("implicit"):
+            for kind, key, exp, got in nested_reports(ns, I, ev, seed, res):
+                res.violation(kind, {"part": "nested", "modules": ns, "imports": I, "key": key, "seed": seed}, exp, got)
         for q in query_checks(ns, I, _so(ns), ev, res):
             res.violation(q[0], {"modules": ns, "imports": I, "query": {"subj": list(q[1]), "obj": list(q[2]), "sk": q[3], "ok": q[4]}, "seed": seed, "phantom": shard.get("phantom", False), "implicit": shard.get("implicit", False)}, q[5], q[6])
     return res
@@ -377,6 +419,10 @@ def run_shard(shard, tier, seed):
 def _check_case(case):
     if case.get("part") == "scan":
         v = scan_messages({}, Result(), only=case["key"])
+        return (v[0][0], v[0][2], v[0][3]) if v else None
+    if case.get("part") == "nested":
+        ns, I = case["modules"], [tuple(e) for e in case["imports"]]
+        v = nested_reports(ns, I, build(ns, I, case.get("seed", 0)), case.get("seed", 0), None, only=case["key"])
         return (v[0][0], v[0][2], v[0][3]) if v else None
     if case.get("part") == "regex":
         v = regex_reports(case["modules"], [tuple(e) for e in case["imports"]], case.get("seed", 0), None, only=case["key"])
@@ -414,7 +460,9 @@ def minimise(v):
                 case, changed = trial, True
     r = _check_case(case)
     v = dict(v, case=case, expected=r[1], observed=r[2])
-    if case.get("part") == "regex":
+    if case.get("part") == "nested":
+        v["signature"] = f"{kind}:{'import' if case['key'][2] else 'imported'}:edges{len(case['imports'])}"
+    elif case.get("part") == "regex":
         k = case["key"]
         v["signature"] = f"{kind}:{k[3]}/{k[5]}:{'import' if k[4] else 'imported'}:{k[2]}:edges{len(case['imports'])}"
     elif case.get("part") == "layer":
